@@ -226,6 +226,7 @@ class Stats:
         self.evaluations = 0
         self.nt = set()
         self.samples = []
+        self.fallback = []
         self.counters = {}
         self.hist = {}
         self.examples = 0
@@ -240,8 +241,14 @@ class Stats:
         self.evaluations += 1
         if nt_key is not None:
             self.nt.add(shash(repr(nt_key)))
-        if sample is not None and len(self.samples) < 6:
-            self.samples.append(sample)
+        # samples shown in the evidence are non-trivial cases from after Hypothesis' minimal first examples;
+        # a trivial one is kept only as a fallback
+        if sample is not None:
+            if nt_key is not None and self.evaluations > 5:
+                if len(self.samples) < 6:
+                    self.samples.append(sample)
+            elif not self.fallback:
+                self.fallback.append(sample)
 
     def merge(self, o):
         self.evaluations += o.evaluations
@@ -250,6 +257,8 @@ class Stats:
         for s in o.samples:
             if len(self.samples) < 12:
                 self.samples.append(s)
+        if not self.fallback:
+            self.fallback = list(o.fallback)
         for k, v in o.counters.items():
             self.counters[k] = self.counters.get(k, 0) + v
         for k, v in o.hist.items():
@@ -375,7 +384,7 @@ def write_evidence(prop, tier, level, stats, rule, wall, violations, extra=None,
         'evaluations': int(stats.evaluations),
         'distinct_nontrivial': len(stats.nt),
         'rule': rule,
-        'samples': stats.samples[:8] if stats.samples else [],
+        'samples': (stats.samples[:8] if stats.samples else list(stats.fallback)),
         'hypothesis_examples': stats.examples,
         'counters': dict(sorted(stats.counters.items())),
         'feature_histogram': dict(sorted(stats.hist.items(), key=lambda kv: -kv[1])[:80]),
